@@ -52,6 +52,14 @@ POINTS_SLICE = TA.option_points(
     strips=[(False, False), (True, True)],
     substrings=[None, ['X']], patterns=[None, [r'\d+']], removes=[['b']],
     mpcs=[0])
+# long texts: default, each exclusion alone, permutation allowance
+POINTS_LONG = [TA.option_point(),
+               TA.option_point(lstrip=True, rstrip=True),
+               TA.option_point(ignore_substrings=['X']),
+               TA.option_point(ignore_patterns=[r'\d+']),
+               TA.option_point(remove_lines=['row 1']),
+               TA.option_point(preprocess='drop_eacute'),
+               TA.option_point(max_permutation_cases=2)]
 SLICE_Q = ['b', 'a', 'X a', 'a1']
 SLICE_T = ['b', 'a', 'X a', 'a1', 'a ']
 
@@ -81,6 +89,28 @@ def split_lines(text):
     if xs and xs[-1] == '':
         xs = xs[:-1]
     return xs
+
+
+def clip(x, n=300):
+    """Shorten long strings inside violation details."""
+    if isinstance(x, str):
+        return x if len(x) <= n else x[:n // 2] + '...[%d chars]...' \
+            % len(x) + x[-n // 2:]
+    if isinstance(x, (list, tuple)):
+        return [clip(y, n) for y in x]
+    return x
+
+
+def first_difference(a, e):
+    """Index of the first differing byte, or the shorter length."""
+    n = min(len(a), len(e))
+    lo = 0
+    while lo < n and a[lo:lo + 1024] == e[lo:lo + 1024]:
+        lo += 1024
+    for k in range(lo, n):
+        if a[k] != e[k]:
+            return k
+    return n
 
 
 def is_subsequence(small, big):
@@ -117,7 +147,12 @@ class C15(Check):
             'under 34 (quick) / 144 (thorough) option points, also with the '
             'actual lacking a final newline, having a doubled one, or CRLF; '
             'binary case = one pair of byte strings of length <= 3 over '
-            '{a, b, 00, ff, 0a}; missing-reference cases per entry '
+            '{a, b, 00, ff, 0a}, or a common patterned prefix of P bytes (P '
+            'in 0, 1, 4095..4097, 8191..8193, 65536) followed by every pair '
+            'of tails of length <= 2, or one byte changed inside the prefix '
+            '(first, middle, last); long-text cases = 200/1000/5000 lines or '
+            '3 lines of 5000/100000 characters with one of 9 named '
+            'deviations under 7 option points; missing-reference cases per entry '
             'point.  Non-trivial = the case contains a failing assertion '
             '(artefact clauses exercised); for text cases additionally a '
             'passing one.')
@@ -142,10 +177,16 @@ class C15(Check):
         L = [('identical', 'identical content: passing assertions write '
                            'nothing'),
              ('binary', 'all pairs of byte strings of length <= 3'),
+             ('binary-long', 'common patterned prefix of 0..65536 bytes '
+                             '(around the 4096/8192 block edges) + every '
+                             'pair of tails of length <= 2; one byte changed '
+                             'inside the prefix'),
              ('missing', 'reference file missing'),
              ('seq2', 'all pairs of sequences of length <= 2')]
         L.append(('forms', 'actual string/file without a final newline, '
                            'with a doubled one, with CRLF'))
+        L.append(('long', 'many lines (200..5000) / long lines with one '
+                          'named deviation'))
         L.append(('seq3-slice', 'length 3 against length 2..3 over a 4-line '
                                 '(thorough 5-line) alphabet, remove_lines '
                                 'set (index mapping needs >= 3 lines)'))
@@ -163,6 +204,26 @@ class C15(Check):
             for a in bs:
                 for e in bs:
                     yield {'k': 'bin', 'a': a.hex(), 'e': e.hex()}
+        elif layer == 'binary-long':
+            tails = list(TA.byte_strings(2))
+            for P in TA.BYTE_PREFIX_LENGTHS:
+                for a in tails:
+                    for e in tails:
+                        yield {'k': 'bin', 'P': P, 'a': a.hex(),
+                               'e': e.hex()}
+                if P:
+                    for k in sorted(set([0, P // 2, P - 1])):
+                        for t in tails[:6] + tails[-1:]:
+                            yield {'k': 'bin', 'P': P, 'flip': k,
+                                   'a': t.hex(), 'e': t.hex()}
+        elif layer == 'long':
+            for n in TA.LONG_SIZES:
+                for dev in TA.LONG_DEVIATIONS:
+                    yield {'k': 'text', 'gen': [n, dev, 0], 'pts': 'long'}
+            for width in (5000, 100000):
+                for dev in TA.LONG_DEVIATIONS:
+                    yield {'k': 'text', 'gen': [3, dev, width],
+                           'pts': 'long-nopattern'}
         elif layer == 'missing':
             for s in TA.sequences(TA.LAMBDA, 2):
                 yield {'k': 'missing', 'a': s}
@@ -200,7 +261,10 @@ class C15(Check):
         self.fc = FilesComparison(verbose=False, tmp_dir=self.box.tmp)
         self.probe_cache = {}
         FSLOG.install()
-        self.sets = {'q': POINTS_Q, 't': POINTS_T, 'slice': POINTS_SLICE}
+        self.sets = {'q': POINTS_Q, 't': POINTS_T, 'slice': POINTS_SLICE,
+                     'long': POINTS_LONG,
+                     'long-nopattern': [p for p in POINTS_LONG
+                                        if not p['ignore_patterns']]}
 
     def teardown_worker(self):
         box = getattr(self, 'box', None)
@@ -289,7 +353,14 @@ class C15(Check):
     def run_text(self, case):
         R = Res()
         box = self.box
-        a, e = case['a'], case['e']
+        if 'gen' in case:
+            a, e = TA.long_text(*case['gen'])
+            shown = {'generated': {'lines': case['gen'][0],
+                                   'deviation': case['gen'][1],
+                                   'line_width': case['gen'][2]}}
+        else:
+            a, e = case['a'], case['e']
+            shown = {'actual': a, 'reference': e}
         points = self.sets[case['pts']]
         ta = TA.content(a, *case.get('fa', ['\n', 1]))
         te = TA.content(e, *case.get('fe', ['\n', 1]))
@@ -338,12 +409,13 @@ class C15(Check):
             if d:
                 R.viol('caller-files-changed:%s' % name,
                        'nothing-outside-tmp_dir',
-                       {'actual': a, 'reference': e, 'changes': d[:6]})
+                       dict(shown, changes=d[:6]))
         R.nontrivial = 'fail' in seen and 'pass' in seen
         if a == e and 'fa' not in case:
             R.nontrivial = True     # layer "identical": the pass clause
-        self.flush(R, bad, points, {'actual': a, 'reference': e,
-                                    'actual_text': ta, 'reference_text': te})
+        if 'gen' not in case:
+            shown = dict(shown, actual_text=ta, reference_text=te)
+        self.flush(R, bad, points, shown)
         return R
 
     def text_failure_clauses(self, route, ta, act, ref, cmds, m, p, add):
@@ -420,14 +492,14 @@ class C15(Check):
                 return
             if pa == pe:
                 add('postproc:identical-files-for-a-failure',
-                    {'post_actual': pa[-6:], 'post_expected': pe[-6:]})
+                    {'post_actual': clip(pa[-6:]), 'post_expected': clip(pe[-6:])})
             return
         shown = [(x, y) for x, y in zip(pa, pe) if x != y]
         got = [g for g in shown if g not in optional]
         if len(pa) != len(pe):
             add('postproc:files-have-different-line-counts',
-                {'post_actual': pa[-6:], 'post_expected': pe[-6:],
-                 'model_unexcused': want})
+                {'post_actual': clip(pa[-6:]), 'post_expected': clip(pe[-6:]),
+                 'model_unexcused': clip(want[:8])})
         elif got != want:
             extra = [g for g in got if g not in want]
             missing = [w for w in want if w not in got]
@@ -437,8 +509,9 @@ class C15(Check):
                 what = 'postproc:unexcused-difference-hidden'
             else:
                 what = 'postproc:wrong-differences'
-            add(what, {'files_differ_on': shown, 'model_unexcused': want,
-                       'post_actual': pa[-6:], 'post_expected': pe[-6:]})
+            add(what, {'files_differ_on': clip(shown[:8]),
+                       'model_unexcused': clip(want[:8]),
+                       'post_actual': clip(pa[-6:]), 'post_expected': clip(pe[-6:])})
 
     def tdda_excuses(self, a, e, p):
         """Does tdda's own comparison of just this pair of (already
@@ -466,8 +539,8 @@ class C15(Check):
             add('raw-actual:not-utf8', {'file': repr(got)[:200]})
             return
         wl = TS.lines_of_text(want.decode('utf-8'))[0]
-        detail = {'file_content': got.decode('utf-8'),
-                  'actual_string': want.decode('utf-8')}
+        detail = {'file_content': clip(got.decode('utf-8')),
+                  'actual_string': clip(want.decode('utf-8'))}
         if gl == wl:
             unix = want.replace(b'\r\n', b'\n').replace(b'\r', b'\n')
             if got + b'\n' == want:
@@ -501,6 +574,15 @@ class C15(Check):
         R = Res()
         box = self.box
         a, e = bytes.fromhex(case['a']), bytes.fromhex(case['e'])
+        if 'P' in case:
+            # common prefix of P patterned bytes, then the short tails; or
+            # one byte inside the prefix changed in the actual
+            prefix = TA.byte_prefix(case['P'])
+            pa = prefix
+            if case.get('flip') is not None:
+                k = case['flip']
+                pa = prefix[:k] + bytes([prefix[k] ^ 0x55]) + prefix[k + 1:]
+            a, e = pa + a, prefix + e
         box.clean(box.ref, box.act, box.tmp)
         ref = os.path.join(box.ref, 'ref.bin')
         act = os.path.join(box.act, 'out.bin')
@@ -527,10 +609,10 @@ class C15(Check):
                 add('binary-verdict:%s-for-%s-files'
                     % (rk, 'equal' if a == e else 'different'), {})
             if rk == 'fail':
-                n = min(len(a), len(e))
-                off = next((k for k in range(n) if a[k] != e[k]), n)
+                off = first_difference(a, e)
                 mm = BININFO.search(info or '')
-                R.out('binary:fail:offset=%s:%s' % (
+                R.out('binary:fail:prefix=%s:offset=%s:%s' % (
+                    case.get('P', 0),
                     mm.group(1) if mm else '?',
                     'same-length' if len(a) == len(e) else
                     'longer' if len(a) > len(e) else 'shorter'))
@@ -539,7 +621,9 @@ class C15(Check):
                         {'message': (info or '')[:300]})
                 else:
                     if int(mm.group(1)) != off:
-                        add('binary-offset-wrong',
+                        add('binary-offset-wrong:first-difference-at-%s'
+                            % ('0' if off == 0 else '1..4095' if off < 4096
+                               else '4096-or-later'),
                             {'reported': int(mm.group(1)), 'expected': off})
                     if mm.group(2) is not None:
                         la = le = int(mm.group(2))
@@ -562,8 +646,13 @@ class C15(Check):
                    {'changes': snapshot_diff(before[0], after[0]) +
                     snapshot_diff(before[1], after[1])})
         box.clean(box.tmp)
-        self.flush(R, bad, None, {'actual_hex': case['a'],
-                                  'reference_hex': case['e']})
+        extra = {'actual_hex': case['a'], 'reference_hex': case['e']}
+        if 'P' in case:
+            extra = {'common_prefix_length': case['P'],
+                     'byte_changed_in_prefix_at': case.get('flip'),
+                     'actual_tail_hex': case['a'],
+                     'reference_tail_hex': case['e']}
+        self.flush(R, bad, None, extra)
         return R
 
     # -------------------------------------------------------------- missing
